@@ -230,7 +230,8 @@ def generate(rng, tier):
     return {"prop": PROP, "tier": tier, "config": {"mode": mode, "rng_seed": rng.getrandbits(48),
                                                     "reuse_detector": rng.random() < 0.6,
                                                     "precision0": 64 if rng.random() < 0.85 else 32,
-                                                    "frames_np": rng.random() < 0.15},
+                                                    "frames_np": rng.random() < 0.15,
+                                                    "bits_form": rng.choice(["int", "int", "int", "int", "np", "float"])},
             "det": det, "img": img, "ops": ops}
 
 
@@ -324,8 +325,10 @@ def execute(plan):
     refresh()
 
     def make_det():
+        bf = cfg.get("bits_form", "int")
+        bits_arg = np.int64(S.bits) if bf == "np" else (float(S.bits) if bf == "float" else S.bits)
         return D.Detector(dark_current=d["dark"], read_noise=d["read_noise"], bias=d["bias"], fwc=d["fwc"],
-                          conversion_gain=d["gain"], bits=S.bits, exposure_time=d["t"],
+                          conversion_gain=d["gain"], bits=bits_arg, exposure_time=d["t"],
                           prnu=None if S.prnu is None else S.prnu.copy(),
                           dcnu=None if S.dcnu is None else S.dcnu.copy())
 
